@@ -5,9 +5,9 @@ package simnet
 
 import (
 	"fmt"
-	"os"
 	"hash/fnv"
 	"net"
+	"os"
 	"runtime"
 	"sort"
 	"strconv"
@@ -163,15 +163,15 @@ type Net struct {
 	byIP    map[string]*Node
 	unknown *Node
 
-	listeners map[string]*Listener // "ip:port"
-	udp       map[string]*UDPConn  // "ip:port"
-	pairs     []*pair
+	listeners   map[string]*Listener // "ip:port"
+	udp         map[string]*UDPConn  // "ip:port"
+	pairs       []*pair
 	livePairs   []*pair // pairs that may still have deliveries
 	needCompact bool
 	part        map[*Node]bool
-	syns      []*syn
-	dgrams    []*dgram
-	linkLat   map[string]time.Duration
+	syns        []*syn
+	dgrams      []*dgram
+	linkLat     map[string]time.Duration
 
 	kick chan struct{}
 	done bool
